@@ -1,1 +1,117 @@
-/-! C05 — property theorems (placeholder until the model exists). -/
+import EupsModel.Lemmas.ShellEmit
+/-! C05 — emitted shell commands reproduce the computed environment when sourced.  Property theorems only
+(model: `Model/ShellEmit.lean`, helper lemmas: `Lemmas/ShellEmit.lean`).
+
+Reading: `shEval base text` is what an sh-family shell started with the environment `base` exports after it has
+evaluated `text` (`none`: the text is outside the modelled fragment).  `emitText old new` is the text
+`";\n".join(cmds)` that `eups.app.setup` prints for `oldEnviron = old` and `os.environ = new` (sh dialect, no `-n`,
+no aliases).  `SameEnv a b`: equal as maps, i.e. every changed or new variable has its exact new value, every
+removed variable is gone and nothing else changed. -/
+namespace EupsModel.C05
+open EupsModel EupsModel.ShellEmit
+
+/-- **C05, full clause.**  For every caller's environment `old` and every computed environment `new` — names
+identifiers, the values eups has to write drawn from the claimed alphabet, none of the four `EUPS_*` variables the
+code refuses to unset disappearing — the shell that evaluates the emitted text ends with exactly `new`.  Nothing is
+assumed about the values of `old` or about unchanged values of `new`. -/
+theorem C05_roundtrip (old new : Env)
+    (hold : ∀ p ∈ old, isIdent p.1 = true) (hnew : ∀ p ∈ new, isIdent p.1 = true)
+    (hdict : (new.map (·.1)).Nodup)
+    (halpha : ∀ p ∈ new, old.get p.1 ≠ some p.2 → InAlphabet p.2)
+    (hprot : ∀ k, isProtected k = true → old.has k = true → new.has k = true) :
+    ∃ e, shEval old (emitText (OldEnv.ofEnv old) new) = some e ∧ SameEnv e new := by
+  have := roundtrip_tracks (OldEnv.ofEnv old) old new (tracks_ofEnv old) hold hnew hdict
+    (fun p hp hl => halpha p hp (by
+      intro hg; apply hl; rw [lookup_ofEnv, hg]; rfl)) hprot false
+  simpa using this
+
+/-- the same for the text as `print` writes it (with the final newline) -/
+theorem C05_roundtrip_printed (old new : Env)
+    (hold : ∀ p ∈ old, isIdent p.1 = true) (hnew : ∀ p ∈ new, isIdent p.1 = true)
+    (hdict : (new.map (·.1)).Nodup)
+    (halpha : ∀ p ∈ new, old.get p.1 ≠ some p.2 → InAlphabet p.2)
+    (hprot : ∀ k, isProtected k = true → old.has k = true → new.has k = true) :
+    ∃ e, shEval old (emitText (OldEnv.ofEnv old) new ++ [10]) = some e ∧ SameEnv e new := by
+  have := roundtrip_tracks (OldEnv.ofEnv old) old new (tracks_ofEnv old) hold hnew hdict
+    (fun p hp hl => halpha p hp (by
+      intro hg; apply hl; rw [lookup_ofEnv, hg]; rfl)) hprot true
+  simpa using this
+
+/-- Non-vacuity: a caller's environment with a value outside the alphabet that stays, a removed variable, a changed
+path with a blank and parentheses, a new empty variable, a new value with `;` and a newline. -/
+example :
+    let old : Env := [(Str.ofString "KEEP", Str.ofString "it's"), (Str.ofString "GONE", Str.ofString "1"),
+                      (Str.ofString "PATH", Str.ofString "/bin")]
+    let new : Env := [(Str.ofString "KEEP", Str.ofString "it's"), (Str.ofString "PATH", Str.ofString "/my prod (v1)/bin:/bin"),
+                      (Str.ofString "E", []), (Str.ofString "X", Str.ofString "a;b\nc")]
+    emitText (OldEnv.ofEnv old) new =
+        Str.ofString "export PATH='/my prod (v1)/bin:/bin';\nexport E=;\nexport X='a;b\nc';\nunset GONE" ∧
+      shEval old (emitText (OldEnv.ofEnv old) new) =
+        some [(Str.ofString "KEEP", Str.ofString "it's"), (Str.ofString "PATH", Str.ofString "/my prod (v1)/bin:/bin"),
+              (Str.ofString "E", []), (Str.ofString "X", Str.ofString "a;b\nc")] := by
+  decide
+
+/-- **`--force`, repaired tree (D9).**  After any sequence of table actions (`envSet`, `envPrepend`/`envAppend`,
+`envUnset`, each in its own direction, with or without `--force`) started from the caller's environment `base`,
+the emitted text evaluated *from `base`* yields the computed environment. -/
+theorem C05_force_roundtrip (acts : List Act) (base : Env)
+    (hbase : ∀ p ∈ base, isIdent p.1 = true)
+    (hnew : ∀ p ∈ (runActs false acts base).cur, isIdent p.1 = true)
+    (hdict : ((runActs false acts base).cur.map (·.1)).Nodup)
+    (halpha : ∀ p ∈ (runActs false acts base).cur,
+      (runActs false acts base).old.lookup p.1 ≠ some (some p.2) → InAlphabet p.2)
+    (hprot : ∀ k, isProtected k = true → base.has k = true → (runActs false acts base).cur.has k = true) :
+    ∃ e, shEval base (emitText (runActs false acts base).old (runActs false acts base).cur) = some e ∧
+      SameEnv e (runActs false acts base).cur := by
+  have := roundtrip_tracks _ base _ (tracks_runActs acts base) hbase hnew hdict halpha hprot false
+  simpa using this
+
+/-- Non-vacuity and the repaired behaviour on the D9 input: `unsetup --force` of a product that `envSet`s `A`. -/
+example :
+    let base : Env := [([65], [49])]
+    let s := runActs false [Act.envSet true false [65] [49]] base
+    s.cur = [] ∧ emitText s.old s.cur = Str.ofString "unset A" ∧ shEval base (emitText s.old s.cur) = some [] := by
+  decide
+
+/-- **D9, pinned tree (negation witness).**  With the pinned `execute_envSet` (`del oldEnviron[key]` in both
+directions) `unsetup --force` emits nothing for the variable it removed: the shell keeps `A`. -/
+theorem C05_force_unsetup_pinned_witness :
+    let base : Env := [([65], [49])]
+    let s := runActs true [Act.envSet true false [65] [49]] base
+    s.cur = [] ∧ emitText s.old s.cur = [] ∧ shEval base (emitText s.old s.cur) = some base := by
+  decide
+
+/-- **The quoting condition is necessary.**  Text without a single quote never gives a variable a value that
+contains one of the metacharacters: whatever an emitter writes unquoted, the shell does not read such a value
+back. -/
+theorem C05_unquoted_never_meta (env : Env) (text k v : Str)
+    (hq : ∀ c ∈ text, c ≠ 39) (hm : v.any isShMeta = true) (h0 : env.get k ≠ some v) :
+    ∀ e, shEval env text = some e → e.get k ≠ some v :=
+  unquoted_never_meta k v hm env text hq h0
+
+/-- In particular `export K=V` with an unquoted `V` over the alphabet that contains a metacharacter does not set
+`K` to `V` (it sets something else, or is outside the fragment). -/
+theorem C05_quote_needed (env : Env) (k v : Str) (hk : isIdent k = true) (hv : InAlphabet v)
+    (hm : v.any isShMeta = true) (h0 : env.get k ≠ some v) :
+    ∀ e, shEval env (sExport ++ [32] ++ k ++ [61] ++ v) = some e → e.get k ≠ some v := by
+  apply unquoted_never_meta k v hm env _ _ h0
+  intro c hc
+  simp only [List.mem_append, List.mem_singleton] at hc
+  rcases hc with ((((hc | hc) | hc) | hc) | hc)
+  · revert c; decide
+  · omega
+  · exact (safe_facts (ident_safe hk c hc)).1
+  · omega
+  · exact alpha_no_sq hv c hc
+
+/-- Non-vacuity of `C05_quote_needed`, and what actually happens: `export K=a b` sets `K=a`. -/
+example : shEval [] (Str.ofString "export K=a b") = some [(Str.ofString "K", Str.ofString "a")] := by decide
+example : shEval [] (Str.ofString "export K=a;b") = none := by decide
+example : emitVal (Str.ofString "a b") = Str.ofString "'a b'" := by decide
+
+/-- The emitter writes nothing for a variable whose value is unchanged, whatever that value is. -/
+theorem C05_unchanged_not_written (old : OldEnv) (k v : Str) (h : old.lookup k = some (some v)) :
+    setCmd? {} old (k, v) = none := by
+  simp [setCmd?, h]
+
+end EupsModel.C05
